@@ -52,11 +52,13 @@ FLOORS = {
     "quick": {"placement": 1500, "block": 2500, "component": 12000, "dimension": 20000, "link": 4000, "massfrac": 8000, "density": 6000,
               "matmod": 150, "custom-isotopics": 100, "pin-lattice": 100, "flags": 12000, "map.fixture": 8, "map.read-mine": 250,
               "map.text-roundtrip": 180, "map.contents-roundtrip": 120, "grid.save-roundtrip": 150, "determinism": 30, "invalid.refused": 30,
-              "inputs-unchanged": 200, "order-independence": 35, "shared-isotopics.unmodified-user": 40, "class-blend": 40},
+              "inputs-unchanged": 200, "order-independence": 35, "shared-isotopics.unmodified-user": 40, "class-blend": 40,
+              "docs.cart-map-with-placeholder-padding": 6},
     "thorough": {"placement": 30000, "block": 50000, "component": 250000, "dimension": 400000, "link": 80000, "massfrac": 160000, "density": 120000,
                  "matmod": 3000, "custom-isotopics": 2000, "pin-lattice": 2000, "flags": 250000, "map.fixture": 8, "map.read-mine": 2500,
                  "map.text-roundtrip": 1800, "map.contents-roundtrip": 1200, "grid.save-roundtrip": 2000, "determinism": 500, "invalid.refused": 400,
-                 "inputs-unchanged": 5000, "order-independence": 900, "shared-isotopics.unmodified-user": 1000, "class-blend": 1000},
+                 "inputs-unchanged": 5000, "order-independence": 900, "shared-isotopics.unmodified-user": 1000, "class-blend": 1000,
+                 "docs.cart-map-with-placeholder-padding": 150},
 }
 TIMEOUT = {"quick": 900, "thorough": 7200}
 ASSUMPTIONS = [
@@ -1589,6 +1591,20 @@ def cart_document(rng, size=None):
     for corner in ((rect[0], rect[1]), (rect[0] + nx - 1, rect[1] + ny - 1)):
         cont.setdefault(corner, specs[0])
     form = rng.choice(["text", "contents"])
+    if form == "text" and rng.random() < .4:
+        # a drawn map may be wider than what it holds: whole outer columns / lines of placeholders (a padding ring, or padding on
+        # some sides only).  The text extent, not the occupied extent, says where (0,0) is.
+        pl, pr, pb, pt = (rng.choice([0, 1, 1, 2]) for _ in range(4))
+        if sym == "full":
+            rect = (rect[0] - pl, rect[1] - pb, nx + pl + pr, ny + pb + pt)
+            rect = (-(rect[2] // 2), -(rect[3] // 2), rect[2], rect[3])  # (0,0) in the middle of the drawn map
+            lo_i, lo_j = rect[0] + pl, rect[1] + pb
+            old = cont
+            ox, oy = min(i for i, _ in old), min(j for _, j in old)
+            cont = {(i - ox + lo_i, j - oy + lo_j): v for (i, j), v in old.items()}
+        else:
+            rect = (0, 0, nx + pr, ny + pt)  # quarter maps are anchored at the lower left: padding on the right / top only
+        spec["padded_map"] = [pl, pr, pb, pt]
     spec["grids"]["core"] = {"geom": "cartesian", "symmetry": sym, "contents": cont, "mapkind": mk, "rect": rect, "form": form, "lattice pitch": P}
     spec["systems"] = {"core": {"grid name": "core", "origin": (0.0, 0.0, rng.choice([0.0, 50.0]))}}
     finish_flags(rng, spec)
@@ -2219,6 +2235,8 @@ def run_docs(sh, rec):
             continue
         try:
             nloc = compare_reactor(rec, spec, r, text)
+            if spec.get("padded_map") and any(spec["padded_map"]):
+                rec.hit("docs.cart-map-with-placeholder-padding")
             check_inputs_unchanged(rec, spec, bp, text)
         except Exception as e:
             rec.crash("compare/%s" % sh["family"], e, doc_witness(spec, text, case=i))
